@@ -516,18 +516,164 @@ fn run<B: SimField, H: ElementHasher<BaseField = B> + Send + Sync + 'static>(ch:
     }
 }
 
+
+// SCRIPTED HASH OUTPUTS
+// ------------------------------------------------------------------------------------------------
+// The hash function is the coin's only source of "randomness", and the hasher is a type parameter:
+// a seam. Here the simulator owns it: `merge_with_int` answers from a script, so that candidates
+// whose coordinates sit exactly at, just above and just below the modulus - events of probability
+// 2^-64 .. 2^-82 with a real hasher over the 64- and 128-bit fields - occur on purpose. A draw
+// must return the first scripted candidate ALL of whose coordinates are below the modulus,
+// canonically encoded.
+
+thread_local! {
+    static SCRIPT: std::cell::RefCell<std::collections::VecDeque<[u8; 32]>> = const { std::cell::RefCell::new(std::collections::VecDeque::new()) };
+}
+
+struct ScriptHasher<B>(std::marker::PhantomData<B>);
+type Inner<B> = crypto::hashers::Blake3_256<B>;
+
+impl<B: StarkField> crypto::Hasher for ScriptHasher<B> {
+    type Digest = <Inner<B> as crypto::Hasher>::Digest;
+    const COLLISION_RESISTANCE: u32 = 128;
+    fn hash(bytes: &[u8]) -> Self::Digest {
+        Inner::<B>::hash(bytes)
+    }
+    fn merge(values: &[Self::Digest; 2]) -> Self::Digest {
+        Inner::<B>::merge(values)
+    }
+    fn merge_with_int(seed: Self::Digest, value: u64) -> Self::Digest {
+        match SCRIPT.with(|s| s.borrow_mut().pop_front()) {
+            Some(b) => Self::Digest::read_from_bytes(&b).expect("harness: scripted digest"),
+            None => Inner::<B>::merge_with_int(seed, value),
+        }
+    }
+}
+
+impl<B: StarkField> ElementHasher for ScriptHasher<B> {
+    type BaseField = B;
+    fn hash_elements<E: FieldElement<BaseField = B>>(elements: &[E]) -> Self::Digest {
+        Inner::<B>::hash_elements(elements)
+    }
+}
+
+fn scripted_of<B: StarkField, E: FieldElement<BaseField = B>>(ch: &mut Chooser, ctx: &mut Ctx, name: &'static str) {
+    let m = modulus_u128::<B>();
+    let w = B::ELEMENT_BYTES; // 8 or 16
+    let deg = E::EXTENSION_DEGREE;
+    let cap: u128 = if w == 16 { u128::MAX } else { u64::MAX as u128 };
+    let salt = ch.u64("script.salt");
+    let mut rng = simcore::rng::Xoshiro::from_u64(salt);
+    let n = 1 + ch.index("script.len", 6);
+    let mut script: Vec<[u8; 32]> = vec![];
+    let mut expected: Option<Vec<u128>> = None;
+    let mut refused = 0u64;
+    for k in 0..n {
+        let last = k == n - 1;
+        let mut d = [0u8; 32];
+        for b in d.iter_mut() {
+            *b = rng.next() as u8;
+        }
+        let mut coords = vec![];
+        for j in 0..deg {
+            // the last candidate is always a valid one, so that the script decides the draw
+            let kind = if last { ch.index("script.valid", 4) } else { ch.weighted("script.coord", &[3, 2, 2, 1, 1, 2]) };
+            let v: u128 = match kind {
+                0 => (((rng.next() as u128) << 64) | rng.next() as u128) % m,
+                1 => m - 1,
+                2 => 0,
+                3 => (((rng.next() as u128) << 64) | rng.next() as u128) % m,
+                // invalid coordinates: the modulus itself, just above it, the largest value of the width
+                4 => m,
+                5 => m.saturating_add(1 + rng.below(5) as u128).min(cap),
+                _ => cap,
+            };
+            let v = if !last && kind == 3 { cap } else { v };
+            coords.push(v);
+            if j * w + w <= 32 {
+                d[j * w..j * w + w].copy_from_slice(&v.to_le_bytes()[..w]);
+            }
+        }
+        if deg * w > 32 {
+            // (48-byte elements do not fit a 32-byte digest: from_random_bytes gets 32 bytes and must refuse)
+            ctx.skipped = Some("element_wider_than_digest");
+            return;
+        }
+        let valid = coords.iter().all(|c| *c < m);
+        if valid && expected.is_none() {
+            expected = Some(coords.clone());
+        } else if !valid && expected.is_none() {
+            refused += 1;
+        }
+        script.push(d);
+    }
+    ctx.probe_n("scripted_candidates_that_must_be_refused", refused);
+    ctx.nontrivial = true;
+    ctx.event_with("script", salt ^ n as u64, || format!("{name}: {n} scripted hash outputs, {refused} to refuse before the first valid one"));
+    let want = expected.expect("harness: the last scripted candidate is valid");
+    SCRIPT.with(|s| {
+        let mut s = s.borrow_mut();
+        s.clear();
+        s.extend(script.iter().copied());
+    });
+    let r = simcore::guard(|| {
+        let mut coin = DefaultRandomCoin::<ScriptHasher<B>>::new(&[B::ONE]);
+        coin.draw::<E>()
+    });
+    SCRIPT.with(|s| s.borrow_mut().clear());
+    match r {
+        Err(p) => ctx.violation(format!("C19/scripted/draw-panic {}", p.signature()), format!("{name}: {}:{} {}", p.file, p.line, p.msg)),
+        Ok(Err(e)) => ctx.violation(format!("C19/scripted/draw-failed {name}"), format!("draw failed with {e} although candidate {} of the script is valid", refused + 1)),
+        Ok(Ok(e)) => {
+            let got = coords_of::<B, E>(&e);
+            if !canonical(&e) || got.iter().any(|c| *c >= m) {
+                ctx.violation(format!("C19/scripted/non-canonical-element-drawn {name}"), format!("the coin returned an element with a coordinate at or above the modulus: {:?} (modulus {m})", got));
+            } else if got != want {
+                ctx.violation(
+                    format!("C19/scripted/draw-differs-from-definition {name}"),
+                    format!("drawn {:?}, the first scripted candidate all of whose coordinates are below the modulus is {:?} (after {refused} candidates that must be refused)", got, want),
+                );
+            }
+        },
+    }
+}
+
+fn scripted_scenario(_info: &RunInfo, ch: &mut Chooser, ctx: &mut Ctx) {
+    type F62 = math::fields::f62::BaseElement;
+    type F64 = math::fields::f64::BaseElement;
+    type F128 = math::fields::f128::BaseElement;
+    match ch.index("script.type", 7) {
+        0 => scripted_of::<F62, F62>(ch, ctx, "f62"),
+        1 => scripted_of::<F62, QuadExtension<F62>>(ch, ctx, "quad<f62>"),
+        2 => scripted_of::<F62, CubeExtension<F62>>(ch, ctx, "cube<f62>"),
+        3 => scripted_of::<F64, F64>(ch, ctx, "f64"),
+        4 => scripted_of::<F64, QuadExtension<F64>>(ch, ctx, "quad<f64>"),
+        5 => scripted_of::<F64, CubeExtension<F64>>(ch, ctx, "cube<f64>"),
+        _ => {
+            if ch.chance("script.f128quad?", 1, 2) {
+                scripted_of::<F128, QuadExtension<F128>>(ch, ctx, "quad<f128>")
+            } else {
+                scripted_of::<F128, F128>(ch, ctx, "f128")
+            }
+        },
+    }
+}
+
 fn scenario(_info: &RunInfo, ch: &mut Chooser, ctx: &mut Ctx) {
     let cfg = CONFIGS[ch.index("cfg", CONFIGS.len())];
     dispatch(cfg, Job19 { ch, ctx, cfg });
 }
 
 pub fn spec() -> CheckSpec {
-    let arms: Vec<Box<dyn Arm>> = vec![Box::new(FnArm { name: "two-replicas", quick: 60_000, thorough: 3_000_000, f: scenario })];
+    let arms: Vec<Box<dyn Arm>> = vec![
+        Box::new(FnArm { name: "two-replicas", quick: 60_000, thorough: 3_000_000, f: scenario }),
+        Box::new(FnArm { name: "scripted-hash-outputs", quick: 40_000, thorough: 1_000_000, f: scripted_scenario }),
+    ];
     CheckSpec {
         id: "C19",
         level: "exploration",
         build: "serial",
-        rule: "one run = one (field, hasher) pair out of the twelve admissible ones x a seed of 0..5 elements x a history of 1..30 operations from {reseed(data), draw base / quadratic / cubic element, draw_integers(count 1..255, domain 2^1..2^32, nonce 0 / small / 64-bit / above 2^32), check_leading_zeros(nonce)} applied to replica A, and the same history with one injected fault (dropped / duplicated / swapped operation, flipped seed, flipped bit of reseed data or nonce, one draw more / fewer) applied to replica B; every output of both replicas is compared with a reference coin model; afterwards one more field element is drawn from both. Non-trivial = a fault fired or both histories are equal on purpose; distinct = distinct event-log digests.".into(),
+        rule: "one run = one (field, hasher) pair out of the twelve admissible ones x a seed of 0..5 elements x a history of 1..30 operations from {reseed(data), draw base / quadratic / cubic element, draw_integers(count 1..255, domain 2^1..2^32, nonce 0 / small / 64-bit / above 2^32), check_leading_zeros(nonce)} applied to replica A, and the same history with one injected fault (dropped / duplicated / swapped operation, flipped seed, flipped bit of reseed data or nonce, one draw more / fewer) applied to replica B; every output of both replicas is compared with a reference coin model; afterwards one more field element is drawn from both. Arm scripted-hash-outputs: the hasher is a type parameter of the coin, so the simulator supplies one whose merge_with_int answers from a script of 1..6 outputs with coordinates exactly at, just above and just below the modulus (events of probability 2^-64 .. 2^-82 with a real hasher); a draw must return the first scripted candidate all of whose coordinates are below the modulus, canonically. Non-trivial = a fault fired or both histories are equal on purpose; distinct = distinct event-log digests.".into(),
         interleaving_measure: "distinct (history, fault kind, fault position) pairs of replica histories".into(),
         real: vec!["crypto::DefaultRandomCoin", "Randomizable::from_random_bytes of the three base fields and their extensions", "all six hashers (merge, merge_with_int, hash_elements)"],
         stub: vec!["nothing; the reference coin model is the oracle"],
